@@ -25,16 +25,17 @@ caught = {}
 log = f'{V}/tools/sensitivity.log'
 if os.path.exists(log):
     for line in open(log):
-        m = re.match(r'sensitivity (\S+): (caught by (\S+)|NOT caught|patch does not apply)', line)
+        m = re.match(r'sensitivity (\S+): (caught by (\S+)|NOT caught|patch does not apply|harmless since fix \S+)', line)
         if m:
-            caught[m.group(1)] = m.group(3) or m.group(2)
+            caught[m.group(1)] = (m.group(3) or m.group(2)).rstrip(':')
 out.append('\n### 12.1 Changes written by independent sub-agents (`seeded/`), each confirmed: demo passes on the clean tree and fails with the patch, full suite still passes\n')
 out.append('| id | property | what was changed | what it needs to manifest | caught by (quick tier, corpus off) |')
 out.append('|---|---|---|---|---|')
 for d in sorted(glob.glob(f'{V}/seeded/*')):
     m = json.load(open(d + '/meta.json'))
     n = os.path.basename(d)
-    out.append(f"| `{n}` | {m['property']} | {str(m.get('what_changed') or m.get('title',''))[:260]} | {str(m.get('needs_to_manifest',''))[:260]} | {caught.get(n, '?')} |")
+    res = caught.get(n, '?') if not m.get('moot_since') else f"harmless since fix {m['moot_since']} (not run)"
+    out.append(f"| `{n}` | {m['property']} | {str(m.get('what_changed') or m.get('title',''))[:260]} | {str(m.get('needs_to_manifest',''))[:260]} | {res} |")
 out.append('\n### 12.2 Own canaries and reverse-fix patches (`mutants/`; written with the checks, hence not independent evidence)\n')
 out.append('| id | property | needs | caught by |')
 out.append('|---|---|---|---|')
